@@ -283,6 +283,7 @@ class FunctionNormalizer:
             self.changed = False
             self._count(fn)
             self.alias_attributes(fn)
+            self.coalesce_copies(fn)
             self._count(fn)
             doc, body = _docstring_split(fn.body)
             body = self.block(body, fall="return", fn=fn)
@@ -324,6 +325,56 @@ class FunctionNormalizer:
                     continue
                 i += 1
 
+    # ---- N14: `a = b` where b is not read afterwards and a does not occur before: b IS a (one variable under two names)
+    def coalesce_copies(self, fn) -> None:
+        if isinstance(fn, ast.Lambda):
+            return
+        for _round in range(8):
+            order: Dict[int, int] = {}
+
+            def go(n):
+                order[id(n)] = len(order)
+                for c in ast.iter_child_nodes(n):
+                    go(c)
+            go(fn)
+            params = {x.arg for x in ast.walk(fn.args) if isinstance(x, ast.arg)}
+            nested = {id(x) for n in ast.walk(fn) if isinstance(n, (ast.FunctionDef, ast.AsyncFunctionDef, ast.Lambda, ast.ClassDef)) and n is not fn for x in ast.walk(n)}
+            occ: Dict[str, List[ast.Name]] = {}
+            for n in ast.walk(fn):
+                if isinstance(n, ast.Name):
+                    occ.setdefault(n.id, []).append(n)
+            done = False
+            for owner, field in _blocks(fn):
+                blk = getattr(owner, field)
+                for i, st in enumerate(blk):
+                    if not (isinstance(st, ast.Assign) and len(st.targets) == 1 and isinstance(st.targets[0], ast.Name) and isinstance(st.value, ast.Name)):
+                        continue
+                    a, b = st.targets[0].id, st.value.id
+                    if a == b or a in params or b in params or any(isinstance(n, (ast.Global, ast.Nonlocal)) for n in ast.walk(fn)):
+                        continue
+                    if any(id(n) in nested for n in occ.get(a, []) + occ.get(b, [])):
+                        continue
+                    here = order[id(st)]
+                    a_ok = all(order[id(n)] > here for n in occ.get(a, []) if n is not st.targets[0]) 
+                    b_ok = all(order[id(n)] < here or n is st.value for n in occ.get(b, [])) and any(isinstance(n.ctx, ast.Store) for n in occ.get(b, []))
+                    # inside a loop the copy runs again: b must be (re)bound in every iteration before it is read, which is the case
+                    # when its first occurrence in the loop is a store; keep to the simple case that b's first occurrence at all is a store
+                    first_b = min(occ.get(b, []), key=lambda n: order[id(n)], default=None)
+                    if not (a_ok and b_ok and first_b is not None and isinstance(first_b.ctx, ast.Store)):
+                        continue
+                    for n in occ[b]:
+                        n.id = a
+                    del blk[i]
+                    if not blk:
+                        blk.append(_loc(ast.Pass(), st))
+                    self._mark()
+                    done = True
+                    break
+                if done:
+                    break
+            if not done:
+                return
+
     def _alias_ok(self, t: str, st: ast.stmt, rest: List[ast.stmt], fn) -> bool:
         v = st.value
         # a pure read: names, attribute chains, constants, comparisons / arithmetic / subscripts of those (no call, no lazily
@@ -351,6 +402,15 @@ class FunctionNormalizer:
                     c = c.value
                 if isinstance(c, ast.Name):
                     state_roots.add(c.id)
+
+        # a parameter annotated with a frozen dataclass of the project: no call can re-bind its attributes, so `t = spec.structure`
+        # stays valid across calls that are handed `spec` (only re-binding the name `spec` itself ends it)
+        frozen_roots = set()
+        if chain_case and isinstance(v.value, ast.Name) and hasattr(fn, "args"):
+            for a_ in list(fn.args.posonlyargs) + list(fn.args.args) + list(fn.args.kwonlyargs):
+                if a_.arg == v.value.id and a_.annotation is not None and norm(a_.annotation).split(".")[-1].strip("'\"") in self.owner.frozen_classes:
+                    frozen_roots.add(a_.arg)
+        state_roots -= frozen_roots
 
         def kills(node) -> bool:
             """Can evaluating ``node`` change what the expression reads?  A store to one of its names / attribute prefixes or
@@ -1121,6 +1181,9 @@ class Normalizer:
             if isinstance(fi.node, ast.Lambda):
                 continue
             self.by_name.setdefault(fi.node.name, []).append(fi)
+        # classes whose instances cannot have an attribute re-bound: @dataclass(frozen=True)
+        self.frozen_classes = {c.node.name for c in raw_project.classes.values()
+                               if any("frozen=True" in norm(d) for d in c.node.decorator_list)}
         self.helpers = self._find_helpers()
         self.helper_nodes = {}
         for name, fi in self.helpers.items():
